@@ -57,6 +57,9 @@ def ng_job(e, p):
         if k == 0 or seq[k - 1] != mode:
             e.call('nogoods::NoGoodStore::set_dup_elem', [rs, Enum(mode, [], 'DuplicateElemination')])
         a, v = symng(e, 'ng%d' % k, V)
+        if k == 0 and p.get('first') is not None:
+            # symmetry reduction for the longest histories: the first nogood is fixed up to renaming of variables and polarity
+            e.assume(a == p['first'][0]); e.assume(v == p['first'][1])
         added.append((a, v))
         e.call('nogoods::NoGoodStore::add_ng', [rs, mk_ng(a, v)])
     ia, iv = symng(e, 'int', V, nonempty=False)
@@ -203,9 +206,14 @@ def spec(ctx, tier, seed):
         plans = [(3, 2, [m, m]) for m in MODES] + [(4, 2, [m, m]) for m in MODES] + [(3, 2, ['choose'] * 2), (2, 3, ['choose'] * 3), (3, 3, ['Equiv'] * 3), (3, 3, ['Subsume'] * 3)]
     for V, K, modes in plans:
         jobs.append(Job('V%d-K%d-%s' % (V, K, '-'.join(modes)), mod, 'ng_job', {'V': V, 'K': K, 'modes': modes}, stop_after_violations=60))
+    if tier == 'thorough':
+        # four adds at V=3 under Subsume: the first nogood ranges over one representative per size (variables renamed, polarities flipped:
+        # the store treats variables and polarities alike - an assumption of this job only, stated in the evidence)
+        for first in ((0b001, 0b001), (0b011, 0b011), (0b111, 0b111)):
+            jobs.append(Job('V3-K4-Subsume-first%s' % bin(first[0])[2:], mod, 'ng_job', {'V': 3, 'K': 4, 'modes': ['Subsume'] * 4, 'first': list(first)}, stop_after_violations=60))
     jobs.append(Job('canary', mod, 'ng_job', {'V': 2, 'K': 1, 'modes': ['Equiv'], 'canary': 'forget'}, stop_after_violations=1, canary=True))
     return {'jobs': jobs, 'level': 'model_checking', 'allowed_status': ('ok', 'panic'),
             'assumptions': ASSUMPTIONS + ['roaring::RoaringBitmap = 32-bit bit-vector (insert/remove/contains/len/min/is_empty/and/or/xor)', 'added nogoods are non-empty (add_ng ignores an empty one; the search never produces one)'],
             'bounds': 'V <= %d statements, sequences of K <= %d nogoods, each a pair of symbolic bit-vectors (any nesting, duplication, subsumption), duplicate-elimination mode per add '
                       'None/Equiv/Subsume incl. every switch pattern at V=3, a symbolic partial interpretation; oracle over all 2^V total assignments' % (max(p[0] for p in plans), max(p[1] for p in plans)),
-            'outside': 'more than %d statements / %d nogoods; completeness of deduction is not claimed by the property' % (max(p[0] for p in plans), max(p[1] for p in plans))}
+            'outside': 'more than %d statements / %d nogoods (thorough: four adds at V=3 under Subsume only with the first nogood fixed up to variable renaming and polarity); completeness of deduction is not claimed by the property' % (max(p[0] for p in plans), max(p[1] for p in plans))}
